@@ -145,7 +145,9 @@ class ConfigManager(object):
     def save(self, profile_name, config, serialize_type=TYPE_JSON, dest=None):
         outputdata = self.config_to_str(config, serialize_type)
         if dest is None:
-            StorageTools.writeProfileConfig(profile_name, outputdata)
+            # name the profile's file after its format, as load() expects (config.json / config.yo)
+            ext = [e for e, t in self.MAP_EXT.items() if t == serialize_type][0]
+            StorageTools.writeProfileData(profile_name, "%s.%s" % (self.NAME_FILE_CONFIG, ext), outputdata)
         else:
             with open(dest, 'w') as outputfile:
                 outputfile.write(outputdata)
